@@ -33,11 +33,33 @@ CHECKS["C02"] = CodecCheck(
          "DataMask of the specification",
     quick_n=1500, thorough_n=40000, assumptions=DOMAIN)
 
+def c03_extra(rep, rnd, first_id):
+    """Both readers on TRUNCATED inputs (neither may return a value the other contradicts)."""
+    from harness import absyn as A
+
+    out = []
+    cases = A.universe(2) if rep.tier == "thorough" else rnd.sample(A.universe(1), 120) + rnd.sample(A.universe(2), 250)
+    for c in cases:
+        consts = {k: v for k, v in c["consts"].items() if k != "_"}
+        scn = {"type": c["type"], "mode": c["mode"], "consts": consts, "defs": A.render(c["type"], consts)}
+        start = codec.start_for(rnd, scn)
+        body = bytes(range(1, 41))
+        try:
+            size = getattr(codec.load(scn["defs"], scn["mode"], False), c["type"]["name"]).size
+        except Exception:  # noqa: BLE001 - ill-formed universe members are judged by the load clause elsewhere
+            continue
+        cuts = {rnd.randrange(0, 24)} | ({size - 1, max(0, size - 2)} if size else {rnd.randrange(0, 8)})
+        for cut in sorted(cuts):
+            data = bytes(rnd.randrange(256) for _ in range(start)) + body[:cut]
+            out.append(codec.parse_record(first_id + len(out), scn, data, start, True, both=True))
+    return out
+
+
 CHECKS["C03"] = CodecCheck(
     "C03", {"equiv", "equiv-layout", "compilable", "load"},
     rule=RAND_RULE + "every scenario is run through both readers; non-trivial = the definition was compiled (not fallen back) "
          "and the compiled run was compared with the interpreted run and with Decode",
-    quick_n=1200, thorough_n=40000, both=True, compiled=True, assumptions=DOMAIN, quick_pairs=700,
+    quick_n=1200, thorough_n=40000, both=True, compiled=True, assumptions=DOMAIN, quick_pairs=700, extra=c03_extra,
     nontrivial=lambda r: bool(r.get("obs", {}).get("compiled")))
 
 
@@ -201,8 +223,21 @@ CHECKS["C07"] = CodecCheck(
 
 # ---------------------------------------------------------------------------------------------------- C08
 def c08_extra(rep, rnd, first_id):
+    from harness import absyn as A
+
     n = 1500 if rep.tier == "thorough" else 90
     out = []
+    # the bounded universe, both readers, every cut (the small fixed shapes: a lone char[2], a bit-field run, ...)
+    ucases = A.universe(1) + (A.universe(2) if rep.tier == "thorough" else rnd.sample(A.universe(2), 60))
+    if rep.tier != "thorough":
+        ucases = rnd.sample(A.universe(1), 110) + ucases[-60:]
+    for c in ucases:
+        consts = {k: v for k, v in c["consts"].items() if k != "_"}
+        scn = {"type": c["type"], "mode": c["mode"], "consts": consts, "defs": A.render(c["type"], consts)}
+        start = codec.start_for(rnd, scn)
+        data = bytes(rnd.randrange(256) for _ in range(start)) + bytes(range(1, 41))
+        for compiled in (True, False):
+            out += codec.cut_and_fault_records(first_id + len(out), scn, data, start, compiled, rnd, max_cuts=48, max_faults=6)
     for _ in range(n):
         scn = codec.gen_scenario(rnd)
         start = codec.start_for(rnd, scn)
